@@ -7,7 +7,7 @@ from checks import CHECKS, NOT_APPLICABLE, HOOK_COMMITS  # noqa
 BASELINE_OFF = "cd /repo && cargo nextest run --workspace --no-fail-fast --test-threads 8 --offline"
 m = {
     "version": 1,
-    "setup_cmd": "cd /verif/harness && CARGO_NET_OFFLINE=true cargo build --release --offline --bin axv --target-dir ../target/prod",
+    "setup_cmd": "cd /verif/harness && CARGO_NET_OFFLINE=true cargo build --release --offline --bin axv --target-dir ../target/prod && CARGO_NET_OFFLINE=true cargo build --release --offline --features sysalloc --bin axv --target-dir ../target/sysalloc",
     "hooks": {
         "guard": "cargo features `verif` (I/O tap, facade, yield points) and `verif_sysalloc` (system allocator for sanitizers) of crate axmosdb",
         "enable": "the harness crate depends on axmosdb = { path = \"/repo/crates/axmos-db\", features = [\"verif\"] }; sanitizer flavours add verif_sysalloc",
